@@ -175,6 +175,7 @@ def run(ctx):
     panic_arms_are_excluded_by_callers(ctx, "R16-p")
     kind_comparators_are_total_orders(ctx, "R16-q")
     use_path_heads_are_guarded(ctx, "R16-r")
+    option_values_are_not_incremented_unchecked(ctx, "R16-s")
     token_loops_make_progress(ctx, "R16-k")
     dependency_preconditions(ctx, "R16-l")
     stdin_never_reaches_file_emitters(ctx, "R16-m")
@@ -1229,3 +1230,49 @@ def use_path_heads_are_guarded(ctx, rid):
                             "`path[%d]` is reached on a path on which no `is_empty()` answered false: `use {};` panics here"
                             % c.args[1][2], [c.loc()])
     r.floor(rid, n, 3, "constant indexings of use-tree paths")
+
+
+PAGE_BOUNDED_GETTERS = {"tab_spaces": "the quantifier asks for a page at least five indentation steps wide: tab_spaces ≤ max_width / 5"}
+
+
+def option_values_are_not_incremented_unchecked(ctx, rid):
+    """R16-s: `option + k` / `option * k` on the bare value of a numeric option panics at the top of its range"""
+    p, r = ctx.p, ctx.r
+    r.rule(rid, "every usize option accepts any value up to usize::MAX (`--config blank_lines_upper_bound=18446744073709551615`, "
+                "`max_width=…`; the statement quantifies over every accepted configuration with a usable page). A checked "
+                "addition or multiplication (AddWithOverflow / MulWithOverflow, which panic in the shipped debug-assertion "
+                "builds and wrap otherwise) one operand of which is the unmodified result of such an option's getter and the "
+                "other a positive constant overflows at the top of the range: `blank_lines_upper_bound() + 1`, "
+                "`max_width() * 2`. The idiom is saturating_add / saturating_mul or a `min` first. tab_spaces is exempt (bounded "
+                "by the page width in the quantifier)")
+    total = flagged = seen = 0
+    for f in p.by_crate["rustfmt_nightly"]:
+        if "print_docs" in f.id or "::tests::" in f.id or "::test::" in f.id:
+            continue
+        for bb, i, s in f.stmts():
+            if s[0] != "=" or s[2][0] != "bin" or s[2][1] not in ("AddWithOverflow", "MulWithOverflow"):
+                continue
+            total += 1
+            a, b = s[2][2], s[2][3]
+            for x, y in ((a, b), (b, a)):
+                ox = operand_origin(f, x)
+                if not (ox[0] == "call" and is_config_getter(ox[1]) and f.locals[ox[1].dest[0]] == "usize"):
+                    continue
+                opt = ox[1].name.rsplit("::", 1)[-1]
+                if y[0] != "k" or not isinstance(y[2], int) or isinstance(y[2], bool):
+                    continue
+                if (s[2][1] == "AddWithOverflow" and y[2] < 1) or (s[2][1] == "MulWithOverflow" and y[2] < 2):
+                    continue
+                seen += 1
+                key = "%s: %s() %s %d" % (short(f.id), opt, "+" if s[2][1].startswith("Add") else "*", y[2])
+                if opt in PAGE_BOUNDED_GETTERS:
+                    r.instance(rid, key, "exception", "%s:%d" % (f.file, s[3]), PAGE_BOUNDED_GETTERS[opt], nontrivial=False)
+                    continue
+                flagged += 1
+                r.instance(rid, key, "violation", "%s:%d" % (f.file, s[3]))
+                r.violation(rid, key, "a checked `%s` on the bare value of the option `%s`: with the option at usize::MAX "
+                            "rustfmt panics here (exit 101)" % ("+" if s[2][1].startswith("Add") else "*", opt),
+                            ["%s:%d" % (f.file, s[3])])
+    r.instance(rid, "checked additions / multiplications of the library", "ok" if not flagged else "violation", "",
+               "%d examined, %d on a bare option value and a constant, %d reported" % (total, seen, flagged))
+    r.floor(rid, total, 150, "checked additions and multiplications outside print_docs")
